@@ -10,7 +10,7 @@ Definition entry_for (old : amap sstat) (t : tgt) : sstat :=
   let base := match afind (t_hash t) old with None => new_sstat (t_series t) (t_total t) | Some s => s end in
   {| ss_state := t_state t; ss_health := ss_health base; ss_series := ss_series base; ss_total := ss_total base;
      ss_times := if tstate_eqb (ss_state base) Normal && tstate_eqb (t_state t) InTransfer then 0%N else ss_times base;
-     ss_window := ss_window base; ss_err := ss_err base |}.
+     ss_window := ss_window base; ss_err := ss_err base; ss_last := ss_last base |}.
 
 Lemma visit_fresh old new t : ~ In (t_hash t) (akeys new) -> visit old new t = aset (t_hash t) (entry_for old t) new.
 Proof.
@@ -56,7 +56,7 @@ Qed.
 
 Lemma entry_for_new old t : afind (t_hash t) old = None ->
   entry_for old t = {| ss_state := t_state t; ss_health := Unknown; ss_series := t_series t; ss_total := t_total t;
-                       ss_times := 0; ss_window := []; ss_err := false |}.
+                       ss_times := 0; ss_window := []; ss_err := false; ss_last := None |}.
 Proof. intros H. unfold entry_for. rewrite H. simpl. now destruct (t_state t). Qed.
 
 Lemma entry_for_kept old t s : afind (t_hash t) old = Some s ->
@@ -178,7 +178,7 @@ Theorem restart_resumes s a idl now :
   (forall t, In t (all_targets a) ->
      afind (t_hash t) (sc_status s') =
      Some {| ss_state := t_state t; ss_health := Unknown; ss_series := t_series t; ss_total := t_total t;
-             ss_times := 0; ss_window := []; ss_err := false |}) /\
+             ss_times := 0; ss_window := []; ss_err := false; ss_last := None |}) /\
   (all_targets a = [] -> forall t, idl = Some t -> sc_idle s' = Some t) /\
   (all_targets a <> [] -> sc_idle s' = None).
 Proof.
